@@ -1826,6 +1826,13 @@ package zygo
 // makes a new type object under the old name).
 //@ func DerefFunction$1
 //@ C17 assert same-type-object @before call CloneFrom[*]: ptr.PointedToType == pt && arg1 == payload
+// ... and the route that overwrites the pointed-to object wholesale by reflection (taken when the Go
+// types of the two objects agree: two arrays, two ints) first compares their types as the
+// language sees them: an array of strings held in a ([]string) field is not overwritten by [1 2 3]
+//@ ghost typesCompared := false @entry
+//@ ghost typesCompared := true @after call Type[0]
+//@ ghost payloadType := ret0 @after call Type[0]
+//@ C17 assert overwrites-only-by-the-same-declared-type @before call Set[0]: typesCompared && payloadType == ptr.PointedToType
 
 // C03: between taking the snapshot and attaching it to the closure nothing edits it
 //@ func (CreateClosureInstr).Execute
